@@ -1,2 +1,47 @@
-(** C03 - theorems under construction. *)
-From Coq Require Import ZArith.
+(** C03 - printed floats parse back to the same float.
+    FULL STATEMENT (needs C01/C02): parse_float (render x) = x for the three renderings.
+    PROVED (closed by [exact]; spec/RoundFacts.v): every finite non-negative bit pattern is a fixed
+    point of the oracle ([RN_fixpoint]: RN f (value x) = x, which covers the exact expansion);
+    decoding/encoding round trips; RN depends on the rational value only ([RN_Qeq]).
+    The 9/17-digit sufficiency (Matula) is NOT proved here; shortest / 9-17 digit renderings come
+    from Rust's own formatter and are run through the real code on every run. *)
+
+From Coq Require Import ZArith QArith List Bool Reals.
+From Coq Require Import Floats.SpecFloat.
+From Flocq Require Import Core.Core.
+From ML Require Import base.RustSem model.Fmt model.FloatOps model.Number model.Parse model.Top spec.Decimal spec.Round spec.RoundFacts
+  gen.Consts gen.Tables gen.BTables gen.PowDump proofs.ParseFacts proofs.Glue proofs.NoUB.
+Import ListNotations.
+
+Open Scope Z_scope.
+
+Theorem C03_RN_fixpoint :
+  forall f : format, sfmt_ok f = true -> forall x : Z, 0 <= x < inf_bits f -> RN f (value_Q f x) = x.
+Proof. exact RN_fixpoint. Qed.
+
+Theorem C03_decode_valid :
+  forall f : format,
+         sfmt_ok f = true ->
+         forall x : Z,
+         0 <= x <= inf_bits f ->
+         let s := sf_of_bits f x in
+         valid_binary (prec f) (emax f) s = true /\
+         nonneg_sf s = true /\ bits_of_sf f s = x /\ (x < inf_bits f -> BinarySingleNaN.is_finite_SF s = true).
+Proof. exact decode_valid. Qed.
+
+Theorem C03_sf_of_bits_of_sf :
+  forall f : format,
+         sfmt_ok f = true ->
+         forall s : spec_float,
+         valid_binary (prec f) (emax f) s = true -> nonneg_sf s = true -> sf_of_bits f (bits_of_sf f s) = s.
+Proof. exact sf_of_bits_of_sf. Qed.
+
+Theorem C03_RN_Qeq :
+  forall f : format, sfmt_ok f = true -> forall v v' : Q, (0 <= v)%Q -> v == v' -> RN f v = RN f v'.
+Proof. exact RN_Qeq. Qed.
+
+
+Print Assumptions C03_RN_fixpoint.
+Print Assumptions C03_decode_valid.
+Print Assumptions C03_sf_of_bits_of_sf.
+Print Assumptions C03_RN_Qeq.
